@@ -13,8 +13,8 @@ import NunavutVerif.Properties.C01RefinePy
 nested call, delimiter header written after the nested call, union tag chain; `getBit`/`getUxx`/`getIxx`/`getF*` with
 implicit zero extension, `align_offset_to<8>`, in-place `std::array` elements, `clear()`/`reserve()`/`push_back` for
 variable-length arrays, `subspan()` / `subspan_bytes(header)`, `set_x()`/`get_x_if()`, the `Error::…` codes,
-`min(offset, capacity_bits) / 8`) on top of the C14 models of the `bitspan` operations (`Model/BitsCpp.lean`).  The
-theorems below say that this implementation-shaped model **refines** the specification `Model/Dsdl.lean` — for
+`min(offset, capacity_bits) / 8`) on top of the C14 models of the `bitspan` operations (`Model/BitsCpp.lean`).
+The theorems below say that this implementation-shaped model **refines** the specification `Model/Dsdl.lean` — for
 *every* type, object, buffer (its length is the capacity), prior content of the destination object,
 `enable_serialization_asserts` on and off and every sound alignment oracle; by structural induction over the type,
 from the C14 contracts of the `bitspan` operations.
